@@ -11,7 +11,7 @@ MEMFUNCS = {"memcpy", "memset", "memmove", "memcmp"}
 # what a C compiler may emit by itself: libgcc/compiler-rt integer helpers and the stack protector.
 # Loader/libc services (__tls_get_addr, __cxa_*, _ITM_*, ...) are NOT in this set: they need a hosted runtime.
 COMPILER_RT = re.compile(r"^(__stack_chk_fail|__stack_chk_guard|__aeabi_(u?l?div(mod)?|u?idiv(mod)?|lmul|ll?s[lr]|lasr|l?cmp|ul?cmp|mem(cpy|move|set|clr)[48]?)|__(u?div|u?mod|mul|ashl|ashr|lshr|cmp|ucmp|neg|ffs|clz|ctz|popcount|parity|bswap)[sdt]i[234]?"
-                         r"|__udivmoddi4|__divmoddi4|_GLOBAL_OFFSET_TABLE_)$")
+                         r"|__udivmoddi4|__divmoddi4|_GLOBAL_OFFSET_TABLE_|__chkstk|___chkstk_ms|__security_cookie|__security_check_cookie|__GSHandlerCheck)$")
 
 
 def port_functions():
